@@ -137,12 +137,114 @@ def inline_sync(D, bi, H):
                 nb['term'] = {'t': 'unreachable'}
         D['blocks'].append(nb)
     blk = D['blocks'][bi]
+    shapes = {}
     for i, a in enumerate(t['args']):
+        sh = _arg_shape(D, a)
+        if sh is not None:
+            shapes[off + 1 + i] = sh
         blk['stmts'].append(_assign({'l': off + 1 + i, 'p': []}, _use(a), line))
     blk['term'] = {'t': 'goto', 'succ': [boff]}
+    specialise_on_args(D, boff, boff + len(hb), shapes)
     if succ and not t['dest']['p']:
         thread_returns(D, boff, boff + len(hb), off, (t['dest']['l'], ()), int(succ[0]))
     return D
+
+
+def _arg_shape(D, a):
+    """what is evident about a call argument: ('variant', name) for a local built once as an enum aggregate (`Some(x)`,
+    `None`, `Mode::Strict`), ('const', value) for a literal bool / integer; None otherwise"""
+    if a.get('k') == 'const':
+        v = a.get('val')
+        if v is not None and str(v) in ('true', 'false'):
+            return ('const', '1' if str(v) == 'true' else '0')
+        if v is not None and str(v).lstrip('-').isdigit():
+            return ('const', str(v))
+        return None
+    if a.get('k') not in ('copy', 'move') or a['pl']['p']:
+        return None
+    l = a['pl']['l']
+    defs = []
+    for b in D['blocks']:
+        for s_ in b['stmts']:
+            if s_['s'] == 'assign' and s_['pl']['l'] == l:
+                defs.append(s_)
+        t = b['term']
+        if t['t'] == 'call' and t['dest']['l'] == l:
+            return None
+    if len(defs) != 1 or defs[0]['pl']['p']:
+        return None
+    rv = defs[0]['rv']
+    if rv['r'] == 'agg' and rv.get('variant') and 'adt' in rv:
+        return ('variant', rv['variant'])
+    if rv['r'] == 'use':
+        return _arg_shape(D, rv['a'][0]) if rv['a'][0].get('k') == 'const' else None
+    return None
+
+
+def specialise_on_args(D, lo, hi, params):
+    """the inlined copy lo..hi of a helper is private to one call: tests of a parameter whose value is evident at that call
+    (`Some(LIMIT)` / `None` / `true`) are decided, so that the copy reads like the code the caller would have written
+    without the helper.  `params`: {param local -> shape}.  Returns the number of switches decided."""
+    if not params:
+        return 0
+    written = set()
+    alias = dict(params)
+    blocks = D['blocks'][lo:hi]
+    for b in blocks:
+        for s_ in b['stmts']:
+            if s_['s'] == 'assign' and s_['pl']['l'] in params:
+                written.add(s_['pl']['l'])
+            if s_['s'] == 'assign' and s_['rv']['r'] in ('ref', 'rawptr') and s_['rv']['pl']['l'] in params and s_['rv'].get('mut'):
+                written.add(s_['rv']['pl']['l'])
+        t = b['term']
+        if t['t'] == 'call' and t['dest']['l'] in params:
+            written.add(t['dest']['l'])
+    alias = {p: sh for p, sh in params.items() if p not in written}
+    if not alias:
+        return 0
+    # single-definition copies of such a parameter
+    ndef = {}
+    for b in D['blocks']:
+        for s_ in b['stmts']:
+            if s_['s'] == 'assign':
+                ndef[s_['pl']['l']] = ndef.get(s_['pl']['l'], 0) + 1
+        if b['term']['t'] == 'call':
+            ndef[b['term']['dest']['l']] = ndef.get(b['term']['dest']['l'], 0) + 1
+    changed = True
+    while changed:
+        changed = False
+        for b in blocks:
+            for s_ in b['stmts']:
+                if s_['s'] == 'assign' and not s_['pl']['p'] and s_['rv']['r'] == 'use' and ndef.get(s_['pl']['l']) == 1 and s_['pl']['l'] not in alias:
+                    a = s_['rv']['a'][0]
+                    if a.get('k') in ('copy', 'move') and not a['pl']['p'] and a['pl']['l'] in alias:
+                        alias[s_['pl']['l']] = alias[a['pl']['l']]
+                        changed = True
+    ival = {}
+    for b in blocks:
+        for s_ in b['stmts']:
+            if s_['s'] == 'assign' and not s_['pl']['p'] and s_['rv']['r'] == 'discr' and not s_['rv']['pl']['p'] and s_['rv']['pl']['l'] in alias and ndef.get(s_['pl']['l']) == 1:
+                sh = alias[s_['rv']['pl']['l']]
+                of = s_['rv'].get('of') or {}
+                if sh[0] == 'variant':
+                    for name, v in of.get('variants', []):
+                        if name == sh[1]:
+                            ival[s_['pl']['l']] = str(v)
+    n = 0
+    for b in blocks:
+        t = b['term']
+        if b['cleanup'] or t['t'] != 'switch' or t['discr'].get('k') not in ('copy', 'move') or t['discr']['pl']['p']:
+            continue
+        L = t['discr']['pl']['l']
+        val = ival.get(L)
+        if val is None and L in alias and alias[L][0] == 'const':
+            val = alias[L][1]
+        if val is None:
+            continue
+        vals = {str(v): x for v, x in t['vals']}
+        b['term'] = {'t': 'goto', 'succ': [vals.get(val, t['otherwise'])], 'decided': True}
+        n += 1
+    return n
 
 
 def inline_async(D, create_bi, poll_bi, H, ctx_local=2):
@@ -595,11 +697,17 @@ def instantiate_generics(P, blocks, caller_gargs):
         ga = _split_gargs(t.get('gargs'))
         if not ga:
             continue
-        m = re.match(r'^\w+/#(\d+)$', ga[0])
-        if not m or int(m.group(1)) >= len(args):
+        if not re.search(r'\w+/#\d+', ga[0]):
             continue
-        conc = args[int(m.group(1))]
-        if re.match(r'^\w+/#\d+$', conc) or conc.startswith("'"):
+        bad = []
+        def sub(m):
+            i = int(m.group(1))
+            if i >= len(args) or re.search(r'\w+/#\d+', args[i]) or args[i].startswith("'"):
+                bad.append(i)
+                return m.group(0)
+            return args[i]
+        conc = re.sub(r'\b\w+/#(\d+)', sub, ga[0])       # `T` itself, or a type built from it (`Indexed<T>`)
+        if bad:
             continue
         method = t['callee'].rsplit('::', 1)[-1]
         try:
@@ -866,6 +974,32 @@ def relocate_moved(P, known):
                     scored = sorted(((len(old_c & callees_of(u)) / max(1, len(old_c | callees_of(u))), u) for u in same_new), reverse=True)
                     if scored[0][0] >= 0.5 and scored[0][0] >= 1.5 * scored[1][0]:
                         alias[scored[0][1]] = k
+    # a function whose parameters were bundled into a struct and that became a method of it (`run_session(a, b, c)` ->
+    # `Session{a, b, c}.run()`): same module, same asyncness, and it still calls what the old one called
+    P.bundled = getattr(P, 'bundled', {})
+    if sigs:
+        def module_of(p):
+            b_ = present.get(p)
+            return getattr(b_, 'file', None)
+        def callees_of2(u):
+            out = set()
+            for p2, bs2 in P.bodies.items():
+                if p2 == u or p2.startswith(u + '::{closure#'):
+                    for b2 in bs2:
+                        if not b2.is_promoted:
+                            out |= {cs.resolved or cs.declared for cs in b2.calls() if (cs.resolved or cs.declared)}
+            return out
+        still_gone = [k for k in known if k not in present and k not in alias.values() and k in sigs and len(sigs[k]) > 5 and len(sigs[k][5]) >= 3]
+        newcomers = [p for p, b_ in present.items() if p not in known and p not in alias]
+        for k in still_gone:
+            sg = sigs[k]
+            old_c = set(sg[5])
+            crate_ = k.split('::')[0]
+            cands = [u for u in newcomers if u.split('::')[0] == crate_ and bool(present[u].is_async) == bool(sg[1]) and u not in alias]
+            scored = sorted(((len(old_c & callees_of2(u)) / max(1, len(old_c | callees_of2(u))), u) for u in cands), reverse=True)
+            if scored and scored[0][0] >= 0.6 and (len(scored) == 1 or scored[0][0] >= 1.5 * scored[1][0]):
+                alias[scored[0][1]] = k
+                P.bundled[k] = list(sg[4]) if len(sg) > 4 and sg[4] else []
     if not alias:
         return alias
 
@@ -951,6 +1085,37 @@ def alias_param_names(P):
     return n
 
 
+def alias_bundled_params(P):
+    """for a function recognised as `parameters bundled into self` (relocate_moved): a pinned parameter name that is now
+    a field of the type of `self` names that field"""
+    n = 0
+    for k, old in getattr(P, 'bundled', {}).items():
+        targets = [P.get(k)]
+        if targets[0] is not None and targets[0].is_async:
+            targets.append(P.get(k + '::{closure#0}'))
+        for tb in targets:
+            if tb is None:
+                continue
+            bases = {x.split('#')[0] for x in tb.names}
+            selfs = [(nm, pl) for nm, pl in tb.names.items() if nm.split('#')[0] == 'self']
+            for nm, pl in selfs:
+                ty = tb.locals[pl['l']] if not pl['p'] and pl['l'] < len(tb.locals) else None
+                if ty is None:
+                    continue
+                ref = ty.startswith('&')
+                core_ty = re.sub(r'^&(mut )?', '', ty)
+                core_ty = norm(re.sub(r'<.*$', '', core_ty))
+                a = P.adts.get(core_ty)
+                if a is None or len(a['variants']) != 1:
+                    continue
+                for i, f in enumerate(a['variants'][0]['fields']):
+                    if f['name'] in old and f['name'] not in bases:
+                        key = f['name'] if f['name'] not in tb.names else f['name'] + nm[len('self'):]
+                        tb.names[key] = {'l': pl['l'], 'p': (['deref'] if ref else []) + ['field:%d:%s' % (i, f['name'])]}
+                        n += 1
+    return n
+
+
 def apply(P, known=None):
     """rewrite P in place: every known body gets unknown helpers inlined; helpers that were inlined everywhere are
     removed from the program.  Returns the inliner (log of what was done)."""
@@ -962,6 +1127,7 @@ def apply(P, known=None):
         return inl
     inl.moved = relocate_moved(P, known)
     inl.renamed_params = alias_param_names(P)
+    inl.bundled_params = alias_bundled_params(P)
     # adapters with a constructor passed as a function are written out (everywhere: a refactoring may introduce one
     # without adding any function)
     for path, bs in list(P.bodies.items()):
